@@ -112,6 +112,12 @@ pub fn alphabet(full: bool) -> Vec<Letter> {
   for k in vec![2u8, 3] {
     v.push(l(&format!("bank-peek{}", k), &[0x3E, k, 0xEA, 0x00, 0x21, 0xCD, 0x10, 0x0E]));
   }
+  // bank switch, then an instruction whose opcode is the last byte of the fixed bank and whose
+  // operands are the first two bytes of the bank mapped now (LD HL,nn at 0x3FFF; execution
+  // continues inside the bank's routine and returns)
+  for k in vec![2u8, 3] {
+    v.push(l(&format!("straddle{}", k), &[0x3E, k, 0xEA, 0x00, 0x21, 0xCD, 0xFF, 0x3F]));
+  }
   // serial output of a register
   v.push(l("serial-a", &[0x3E, 0x41, 0xE0, 0x01, 0x3E, 0x81, 0xE0, 0x02]));
   if full {
@@ -198,6 +204,8 @@ pub fn base_image() -> Vec<u8> {
     // tail of the bank: marker
     img[base + 0x3FFF] = b as u8;
   }
+  // the last byte of the fixed bank: LD HL,nn whose operand bytes lie in the switchable bank
+  img[0x3FFF] = 0x21;
   let h = header_bytes(0x03, 0x01, 0x02);
   img[0x104..0x150].copy_from_slice(&h[0x104..0x150]);
   img
